@@ -491,6 +491,13 @@ open AslProofs.Map (lookup KeysNodup lookup_append lookup_none lookup_mem lookup
 set_option linter.unusedSectionVars false
 variable {K V : Type} [DecidableEq K]
 
+/-! ## obligations on the regenerated constants (`Gen/HashMapGen.lean`) -/
+
+/-- `HashMap()` allocates at least one bucket -/
+theorem defaultBuckets_pos : 0 < Gen.HashMap.defaultBuckets := by decide
+/-- `rehash()` never shrinks the table to nothing -/
+theorem growFactor_pos : 0 < Gen.HashMap.growFactor := by decide
+
 /-! ## growth: `rehash()` -/
 
 /-- one step of the `rehash()` loop -/
@@ -572,10 +579,10 @@ theorem rehash_spec {h : K → Nat} {m : HM K V} (inv : Inv h m) :
   simp only []
   split
   · exact ⟨inv, fun _ => rfl⟩
-  · have hnb : 0 < m.buckets.length * 8 := by have := inv.wf.nb_pos; omega
+  · have hnb : 0 < m.buckets.length * Gen.HashMap.growFactor := Nat.mul_pos inv.wf.nb_pos growFactor_pos
     have E := empty_inv (V := V) h hnb
-    have hlenE : (List.replicate (m.buckets.length * 8) ([] : List (K × V))).length = m.buckets.length * 8 := by simp
-    have S := foldl_rstep_spec (enum m) inv.wf.keysNodup (List.replicate (m.buckets.length * 8) []) E.1.wf
+    have hlenE : (List.replicate (m.buckets.length * Gen.HashMap.growFactor) ([] : List (K × V))).length = m.buckets.length * Gen.HashMap.growFactor := by simp
+    have S := foldl_rstep_spec (enum m) inv.wf.keysNodup (List.replicate (m.buckets.length * Gen.HashMap.growFactor) []) E.1.wf
       (by intro x _; have := E.2 x.1; simpa [abs, enum, empty] using this)
     rw [hlenE] at S
     rw [rehashInto_eq]
@@ -794,28 +801,28 @@ theorem sAddAll_spec {h : K → Nat} {s o : HSet K} (is : Inv h s) (io : Inv h o
 theorem sUnion_spec {h : K → Nat} {a s : HSet K} (ia : Inv h a) (is : Inv h s) :
     Inv h (sUnion h a s) ∧ ∀ y, has h (sUnion h a s) y = (has h a y || has h s y) := by
   unfold sUnion
-  have E := empty_inv (V := Int) h (show 0 < 256 by decide)
+  have E := empty_inv (V := Int) h defaultBuckets_pos
   obtain ⟨i1, a1⟩ := sAddAll_spec E.1 ia
   obtain ⟨i2, a2⟩ := sAddAll_spec i1 is
   refine ⟨i2, ?_⟩
   intro y
-  rw [a2 y, a1 y, has_empty h (by decide)]
+  rw [a2 y, a1 y, has_empty h defaultBuckets_pos]
   simp
 
 theorem sIn_spec {h : K → Nat} {a s : HSet K} (ia : Inv h a) :
     Inv h (sIn h a s) ∧ ∀ y, has h (sIn h a s) y = (has h a y && has h s y) := by
-  have E := empty_inv (V := Int) h (show 0 < 256 by decide)
+  have E := empty_inv (V := Int) h defaultBuckets_pos
   have F := foldl_cond_ins (h := h) (fun k => has h s k) (enum a) _ E.1
   refine ⟨F.1, ?_⟩
   intro y
   have := F.2 y
   unfold sIn
-  rw [Bool.eq_iff_iff, this, mem_keys_iff ia, has_empty h (by decide)]
+  rw [Bool.eq_iff_iff, this, mem_keys_iff ia, has_empty h defaultBuckets_pos]
   simp
 
 theorem sNotIn_spec {h : K → Nat} {a s : HSet K} (ia : Inv h a) :
     Inv h (sNotIn h a s) ∧ ∀ y, has h (sNotIn h a s) y = (has h a y && !has h s y) := by
-  have E := empty_inv (V := Int) h (show 0 < 256 by decide)
+  have E := empty_inv (V := Int) h defaultBuckets_pos
   have F := foldl_cond_ins (h := h) (fun k => !has h s k) (enum a) _ E.1
   have hfold : ∀ (es : List (K × Int)) (b : HSet K),
       es.foldl (fun b kv => if has h s kv.1 then b else sIns h b kv.1) b =
@@ -832,12 +839,12 @@ theorem sNotIn_spec {h : K → Nat} {a s : HSet K} (ia : Inv h a) :
   refine ⟨F.1, ?_⟩
   intro y
   have := F.2 y
-  rw [Bool.eq_iff_iff, this, mem_keys_iff ia, has_empty h (by decide)]
+  rw [Bool.eq_iff_iff, this, mem_keys_iff ia, has_empty h defaultBuckets_pos]
   simp
 
 theorem sFromList_spec {h : K → Nat} (xs : List K) :
     Inv h (sFromList h xs) ∧ ∀ y, has h (sFromList h xs) y = true ↔ y ∈ xs := by
-  have E := empty_inv (V := Int) h (show 0 < 256 by decide)
+  have E := empty_inv (V := Int) h defaultBuckets_pos
   have gen : ∀ (xs : List K) (b : HSet K), Inv h b →
       Inv h (xs.foldl (sIns h) b) ∧ ∀ y, has h (xs.foldl (sIns h) b) y = true ↔ (has h b y = true ∨ y ∈ xs) := by
     intro xs
@@ -865,7 +872,7 @@ theorem sFromList_spec {h : K → Nat} (xs : List K) :
   refine ⟨i, ?_⟩
   intro y
   unfold sFromList
-  rw [a y, has_empty h (by decide)]
+  rw [a y, has_empty h defaultBuckets_pos]
   simp
 
 theorem sContainsAll_spec {h : K → Nat} {a s : HSet K} (is : Inv h s) :
